@@ -61,6 +61,28 @@ PROPS = {
         "trusted_base": ["tools/fngen translator (checked differentially on every run)"],
         "assumptions": ["forkChoice wall-clock helpers are driven with slot-centred timestamps (blockTime 100000 s) so results do not depend on the second the check runs"],
     },
+    "C14": {
+        "title": "Transaction pool keeps its indexes consistent, bounded and live",
+        "level": "proof",
+        "technique": "Lean 4: sequential model of pkg/txpool, invariant proved for init and preserved by add/remove/reorg/block-applied/-reverted for all histories, verifier answers, tie-breaks and limits >= 1; lock discipline as a data table checked by decide; differential correspondence with the real pool (scripted ABI/connection, verif snapshot after every op, watchdog on every call) + model-free invariant oracle + concurrent stress",
+        "design_ref": "DESIGN.md §6 C14",
+        "level_text": "Lean theorems: C14Inv (indexes agree, one list per sender, nonce-unique lists, fee queue = pooled set, |all| <= max, per sender <= maxPerAccount, processables strictly ascending gap-free and pooled) holds after every op sequence; replacement evicts the old tx from all three indexes and needs the fee increase; only reorg promotes and only txs not answered invalid; no nil-list panic; no re-entrant lock / lock-order violation in the lock table of the fixed source, and the table of the original source fails the same check. Every generated history is run on the real pool and on the compiled model and the canonical dump of the three indexes is diffed after each op; a Go oracle checks the invariant clauses and the returns-within-watchdog clause without the model; thorough adds 600 concurrent rounds.",
+        "level_note": "Trusted: Lean kernel, harness, hand-written model and hand-extracted lock table (fixedTable). Real concurrency is covered by the lock-discipline theorem plus stress, not by a linearizability proof. Ties between eviction candidates (Go map order) are a model parameter; the harness truncates such cases after the eviction. Known finding C14-pending-tx-processable (pending verdict treated as ok).",
+        "rule": "histories of 5-120 ops: add (fresh slot / resend / replacement below, at, above the fee rule, fees near 2^64), remove, reorg with scripted invalid/pending answers, applied, reverted; limits from 1; families random/capacity/persender/promotion/large/fee-overflow + regressions; non-trivial = a case exercising eviction, replacement, promotion, invalid drop, full-pool rejection or revert; distinct = distinct op sequences",
+        "trusted_base": ["lock table fixedTable hand-extracted from pkg/txpool/txpool.go, txlist.go", "uint64 arithmetic modelled in Nat (no overflow reachable after the replacement-fee fix)"],
+        "assumptions": ["MaxTransactions >= 1 and MaxTransactionsPerAccount >= 1", "transactions are Init-ed (size >= 1), as every caller in the repository does", "transaction ids are collision-free"],
+    },
+    "C18": {
+        "title": "Peer penalties accumulate into bans that are enforced and expire",
+        "level": "proof",
+        "technique": "Lean 4 proofs (refinement of a per-IP epoch specification and invariants by induction over arbitrary op/event lists) + differential correspondence model vs the real connectionGater / Peer.addPenalty / rateLimit / onRequest / onResponse / ApplyPenalty driven in-process under a virtual clock + model-free per-IP bookkeeping oracle + two real libp2p hosts on loopback + wall-clock expiry scenarios",
+        "design_ref": "DESIGN.md §6 C18",
+        "level_text": "Lean proves for ALL sequences of penalties (any amount/sign, any address), expiry passes at any time and block/unblock/blacklist operations: the table entry of every IP is exactly the one implied by its epoch (penalties since its last expiry); banned iff some chronological prefix of the epoch sums to >= 100; every gate sequence (inbound and outbound) refuses exactly the banned or blacklisted IPs; a ban holds through all operations in [tb, tb+E], and the first pass after expiry removes the entry (allowed again, clean score); penalties are per IP. For the rate limiter / message protocol: well-formed traffic within the per-interval limits never changes the gater, closes no connection and reaches the handler; the message exceeding the limit adds the penalty and resets the counter; malformed envelopes and unknown procedures ban the IP and disconnect the peer. The model is tied to pkg/p2p by running generated op sequences (IPv4/IPv6/IPv4-mapped/zone/relay/no-IP multiaddrs, several peers behind one IP, blacklist configurations, traffic bursts around the limits, sweeps at expiry-1/expiry/expiry+1) on the real code and the compiled model and diffing every output; a Go reference (score sums per IP, message counts per interval) checks the property clauses after every op without the model.",
+        "level_note": "Trusted: Lean kernel, harness, verif hooks in pkg/p2p/export_verif.go (stub libp2p host; clock translation = affine shift of stored expirations around each clock-reading op; SweepOnce/RLTick run the package's own expiry / reset loops for one pass). libp2p consulting the gates in the modelled order is checked only by the loopback scenarios. Go int overflow of scores not modelled. Invalid sync requests are covered from Connection.BanPeer downwards only.",
+        "rule": "quick 4000 / thorough 150000 op sequences (tags random, expiry, rate, shared-ip, blacklist, invalid); non-trivial = a case with a ban, refusal, disconnect, rate penalty, connection-level ban, sweep after a ban or blacklist; distinct = distinct op sequences; Extra: 6 loopback scenarios (both tiers), 64 wall-clock expiry scenarios (thorough)",
+        "trusted_base": ["pkg/p2p/export_verif.go stub host and clock translation", "libp2p calls InterceptPeerDial/AddrDial/Secured/Upgraded (outbound) and Accept/Secured/Upgraded (inbound)", "net.IP.String() injective modulo IPv4-mapped IPv6"],
+        "assumptions": ["the expiry loop ticks at least every intervalCheck (a ban lasts until the first pass after expiration)", "scores stay within Go int range"],
+    },
     "C12": {
         "title": "Staged state store reads equal the database with staged writes applied",
         "level": "proof",
